@@ -20,7 +20,7 @@ from rv.synth import Synth
 
 PROPERTY = "C06"
 LEVEL = "exploration"
-BUDGET_S = {"quick": 75, "thorough": 1200}
+BUDGET_S = {"quick": 75, "thorough": 3600}
 RULE = (
     "one evaluation = one history on one file: load, then 2-4 cycles of (1-4 edits of catalogue slots of the LOADED "
     "object: project fields, common module fields, any controller, any option, MIDI bindings, type-specific payload incl. "
